@@ -153,6 +153,21 @@ fn split_range_record(
     ))
 }
 
+/// Verification hook (compiled only with `--cfg googlefonts_fontations_verif`).
+///
+/// Runs [`split_coverage`] on the bytes of a coverage table and returns the
+/// bytes of the new table. Nothing in the crate uses this.
+#[cfg(googlefonts_fontations_verif)]
+pub fn verif_split_coverage(
+    coverage: &[u8],
+    start: u16,
+    end: u16,
+) -> Result<Vec<u8>, read_fonts::ReadError> {
+    use read_fonts::{FontData, FontRead};
+    let coverage = rlayout::CoverageTable::read(FontData::new(coverage))?;
+    Ok(split_coverage(&coverage, start, end).bytes)
+}
+
 // a helper to convert a write-fonts table into graph-ready bytes.
 //
 // NOTE: the table must not contain any offsets. intended for coverage/classdef
